@@ -139,7 +139,7 @@ fn spawn_from_files(conf: &Conf) -> App {
     if !env_secret {
         std::fs::write(format!("{dir}/auth_secret"), SECRET).expect("write secret");
     }
-    let exe = std::env::current_exe().expect("exe");
+    let exe = common::self_exe();
     let mut cmd = std::process::Command::new(exe);
     cmd.arg("C14-child-read").env("CONFIG_FILE", format!("{dir}/config.yaml")).env("AUTH_SECRET_FILE", format!("{dir}/auth_secret")).env_remove("ENV_PREFIX");
     for (k, _) in std::env::vars().filter(|(k, _)| k.starts_with("PASSAGE_")) {
